@@ -135,7 +135,7 @@ func c07(c *Ctx) {
 	r.Rule("C07.alloc", "allocation sizes in scope are constants or linear in the length of data already received (same def-use rule as C06.no-claimed-alloc for frame lengths)")
 	r.Assume("io.Reader.Read / bufio.Reader.Read return 0 <= n <= len(p); bufio.Reader.Peek(n) returns at most n bytes and exactly n when err == nil; Buffered() >= 0")
 	r.Assume("strings.LastIndex(s, sep) is in [-1, len(s)-len(sep)]; strings.HasPrefix(s, p) implies len(s) >= len(p); strings.SplitN(s, sep, n>0) returns between 1 and n elements")
-	r.Assume("utf8.DecodeRuneInString(s) returns 0 <= size <= len(s) and size >= 1 for non-empty s; copy returns min(len(dst), len(src)); binary.BigEndian.Uint16/Uint64/PutUint16/PutUint64 need 2/8 bytes")
+	r.Assume("utf8.DecodeRuneInString(s) returns 0 <= size <= len(s) and size >= 1 for non-empty s; copy returns min(len(dst), len(src)); binary.BigEndian.Uint16/Uint64/PutUint16/PutUint64 need 2/8 bytes; base64 Encoding.Decode/Encode and hex.Decode/Encode need a destination of DecodedLen/EncodedLen bytes")
 	r.Assume("nil-pointer dereferences and panics inside imported packages are out of scope")
 
 	st := &c07state{c: c, sites: map[ssa.Instruction]*c07site{}, read: c.fn("(*Conn).read")}
@@ -236,6 +236,21 @@ func (st *c07state) libFacts(x *core.Explorer, ev *core.Event) {
 		}
 	case "(*bytes.Buffer).Len":
 		x.AssumeGE(res, 0)
+	case "(*encoding/base64.Encoding).EncodedLen", "(*encoding/base64.Encoding).DecodedLen":
+		// padded standard encodings only (StdEncoding, URLEncoding)
+		enc := strip(ev.Args[0])
+		if enc.Kind == core.KLoad && enc.Args[0].Kind == core.KGlobal {
+			if g := enc.Args[0].Ref.(*ssa.Global); g.Pkg != nil && g.Pkg.Pkg.Path() == "encoding/base64" && (g.Name() == "StdEncoding" || g.Name() == "URLEncoding") {
+				if n, ok := ev.Args[1].Int64(); ok && n >= 0 {
+					v := (n + 2) / 3 * 4
+					if name == "(*encoding/base64.Encoding).DecodedLen" {
+						v = n / 4 * 3
+					}
+					x.AssumeGE(res, v)
+					x.AssumeLE(res, v)
+				}
+			}
+		}
 	}
 	// library preconditions: big-endian accessors need 2 / 8 bytes
 	need := map[string]int64{"(encoding/binary.bigEndian).Uint16": 2, "(encoding/binary.bigEndian).Uint64": 8, "(encoding/binary.bigEndian).Uint32": 4,
@@ -253,6 +268,39 @@ func (st *c07state) libFacts(x *core.Explorer, ev *core.Event) {
 			if s.proven {
 				s.proven = false
 				s.failWhy = fmt.Sprintf("%s needs %d bytes but len(%s) is not known to be >= %d", name, n, buf, n)
+			}
+		}
+	}
+	// library preconditions: codecs writing into a caller-supplied buffer need room for the whole output
+	type codec struct {
+		dst, src int
+		need     func(n int64) int64
+	}
+	codecs := map[string]codec{
+		"(*encoding/base64.Encoding).Decode": {1, 2, func(n int64) int64 { return (n*3 + 3) / 4 }},
+		"(*encoding/base64.Encoding).Encode": {1, 2, func(n int64) int64 { return (n + 2) / 3 * 4 }},
+		"encoding/hex.Decode":                {0, 1, func(n int64) int64 { return n / 2 }},
+		"encoding/hex.Encode":                {0, 1, func(n int64) int64 { return 2 * n }},
+	}
+	if cd, ok := codecs[name]; ok && len(ev.Args) > cd.src && st.sites != nil {
+		dst, src := ev.Args[cd.dst], ev.Args[cd.src]
+		s := st.sites[ev.Instr]
+		if s == nil {
+			s = &c07site{fn: ev.Fn, in: ev.Instr, proven: true, kind: "precondition", key: "call " + name + "(" + stableKey(dst) + ")"}
+			st.sites[ev.Instr] = s
+		}
+		s.visited++
+		lo, hasLo := x.Lower(x.Len(dst))
+		hi, hasHi := x.Upper(x.Len(src))
+		if !(hasLo && hasHi && lo >= cd.need(hi)) {
+			s.unproven++
+			if s.proven {
+				s.proven = false
+				if hasLo && hasHi {
+					s.failWhy = fmt.Sprintf("%s writes up to %d bytes for a %d-byte input but the destination %s has only %d: index out of range inside the library", name, cd.need(hi), hi, dst, lo)
+				} else {
+					s.failWhy = fmt.Sprintf("%s: the destination %s is not known to have room for the output of the input %s (it panics when too small)", name, dst, src)
+				}
 			}
 		}
 	}
